@@ -8,6 +8,7 @@ import (
 	"os/exec"
 	"path/filepath"
 	"sort"
+	"strconv"
 	"strings"
 	"time"
 )
@@ -197,10 +198,21 @@ func tail(s string, n int) string {
 }
 
 func writeWitness(dir string, idx int, w *Witness) string {
+	w.ParamsQ = nil
+	for _, p := range w.Params {
+		w.ParamsQ = append(w.ParamsQ, strconv.Quote(p))
+	}
 	data, _ := json.MarshalIndent(w, "", " ")
 	h := sha1.Sum(data)
-	name := fmt.Sprintf("%s-%s-%x.json", w.Harness, strings.Join(w.Params, "_"), h[:5])
-	name = strings.ReplaceAll(name, "/", "_")
+	var pn strings.Builder
+	for _, c := range []byte(strings.Join(w.Params, "_")) {
+		if c >= '0' && c <= '9' || c >= 'a' && c <= 'z' || c >= 'A' && c <= 'Z' || c == '_' || c == '-' || c == ':' || c == ',' {
+			pn.WriteByte(c)
+		} else {
+			fmt.Fprintf(&pn, "%%%02x", c)
+		}
+	}
+	name := fmt.Sprintf("%s-%s-%x.json", w.Harness, pn.String(), h[:5])
 	f := filepath.Join(dir, name)
 	os.WriteFile(f, data, 0o644)
 	w.File = f
@@ -229,6 +241,7 @@ func obsEqual(a, b []ObsVal) (bool, string) {
 
 func runProp(prop, tier, repo, verif string, workers int, seed int64, solverBin, only string, debug, noReplay bool) int {
 	t0 := time.Now()
+	verifDir = verif
 	pd, ok := propDefs[prop]
 	if !ok {
 		fmt.Fprintf(os.Stderr, "unknown property %s\n", prop)
@@ -245,6 +258,15 @@ func runProp(prop, tier, repo, verif string, workers int, seed int64, solverBin,
 		var f []*HarnessCfg
 		for _, c := range cfgs {
 			if c.Name == only {
+				f = append(f, c)
+			}
+		}
+		cfgs = f
+	}
+	if instFilter != "" {
+		var f []*HarnessCfg
+		for _, c := range cfgs {
+			if strings.Contains(strings.Join(c.Params, " "), instFilter) {
 				f = append(f, c)
 			}
 		}
@@ -345,6 +367,20 @@ func runProp(prop, tier, repo, verif string, workers int, seed int64, solverBin,
 		}
 	}
 	tExplore := time.Since(t0).Seconds() - tLoad
+	if f := os.Getenv("SYMGO_INSTLOG"); f != "" {
+		var sb strings.Builder
+		for _, r := range results {
+			if r == nil || r.Stats == nil {
+				continue
+			}
+			rec := map[string]interface{}{"harness": r.Cfg.Name, "params": r.Cfg.Params, "paths": r.Stats.Paths, "done": r.Stats.Done,
+				"covers": r.Stats.Covers, "wall": round2(r.WallS), "complete": r.Complete, "inconclusive": r.Stats.Inconclusive, "viol": len(r.Violations), "maxsteps": r.Stats.MaxPathSteps}
+			b, _ := json.Marshal(rec)
+			sb.Write(b)
+			sb.WriteByte('\n')
+		}
+		os.WriteFile(f, []byte(sb.String()), 0o644)
+	}
 
 	// ---- native replay ----
 	tmp, _ := os.MkdirTemp("", "symgo-")
